@@ -41,6 +41,19 @@ func isReservedHeader(k string) bool {
 		return false
 	}
 }
+
+// isConnectionHeader reports whether the lower case header k is specific to
+// the client's HTTP/1 connection. Such headers are not metadata of the call:
+// HTTP/2 forbids them (RFC 9113 8.2.2), a proxied back-end resets the stream.
+func isConnectionHeader(k string) bool {
+	switch k {
+	case "connection", "keep-alive", "proxy-connection", "transfer-encoding", "upgrade":
+		return true
+	default:
+		return false
+	}
+}
+
 func isWhitelistedHeader(k string) bool {
 	switch k {
 	case ":authority", "user-agent":
@@ -72,6 +85,9 @@ func newIncomingContext(ctx context.Context, header http.Header) (context.Contex
 	for k, vs := range header {
 		k = strings.ToLower(k)
 		if isReservedHeader(k) && !isWhitelistedHeader(k) {
+			continue
+		}
+		if isConnectionHeader(k) {
 			continue
 		}
 		if strings.HasSuffix(k, binHdrSuffix) {
